@@ -29,13 +29,14 @@ def memoize(func):
     @wraps(func)
     def wrapper(self, *args):
         try:
-            return cache[self][args]
-        except KeyError:
-            cache.setdefault(self, {})[args] = func(self, *args)
-            return cache[self][args]
+            hash(args)
         except TypeError:
             warnings.warn("Cannot memoize inputs to %s" % func)
             return func(self, *args)
+        results = cache.setdefault(self, {})
+        if args not in results:
+            results[args] = func(self, *args)
+        return results[args]
 
     return wrapper
 
